@@ -148,6 +148,12 @@ fn parse_ex_cmd(raw: &str, select_range: Option<(usize,usize)>) -> Result<Option
 			parse_ex_command(&mut chars)?.map(|v| VerbCmd(1, v))
 		}
 	};
+	let mut verb = verb;
+	if let (Some(VerbCmd(_,Verb::Put(Anchor::After))), Some(MotionCmd(_,Motion::Line(LineAddr::Number(0))))) = (&verb,&motion) {
+		// ':0put' puts above the first line
+		verb = Some(VerbCmd(1,Verb::Put(Anchor::Before)));
+		motion = Some(MotionCmd(1,Motion::Line(LineAddr::Number(1))));
+	}
 	if motion.is_none() && !matches!(verb, Some(VerbCmd(_,Verb::Write(_)))) {
 		motion = Some(MotionCmd(1,Motion::Line(LineAddr::Current)))
 	}
